@@ -79,8 +79,13 @@ func Init() {
 // NewDb creates a heap database with the concurrency machinery running and
 // applies the admin requests
 func NewDb(admin ...string) *db19.Database {
+	return NewDbChunk(8192, admin...)
+}
+
+// NewDbChunk is NewDb with a given heap chunk size (records must fit in a chunk)
+func NewDbChunk(chunk int, admin ...string) *db19.Database {
 	Init()
-	db := db19.CreateDb(stor.HeapStor(8192))
+	db := db19.CreateDb(stor.HeapStor(chunk))
 	db19.StartConcur(db, time.Minute)
 	for _, a := range admin {
 		query.DoAdmin(db, a, nil)
